@@ -545,6 +545,73 @@ func checkPerPeerGoroutines(p *core.Program, r *core.Report) {
 	r.Count("goroutines started per sender in forward", n)
 
 	checkConstraintsPersisted(p, r)
+	checkFragmentIdentity(p, r)
+}
+
+// checkFragmentIdentity — necessary for "an accepted bundle is never silently
+// lost" when the bundle is a fragment: the routing layer files a received
+// bundle through BundleDescriptor.Sync, which pushes it to the store only if
+// the store does not know its ID. That ID is scrubbed (fragment offset and
+// total length removed), so a second fragment of a bundle finds the first
+// one's record, inherits its constraints, is never pushed and is dropped by
+// Core.receive as "already known". A fragment-aware decision must exist: a
+// Store.Push that is reachable although the scrubbed ID is known.
+func checkFragmentIdentity(p *core.Program, r *core.Report) {
+	sync := p.Func(routingPkg, "BundleDescriptor", "Sync")
+	pushes := core.CallsTo(sync, storagePkg+".Store.Push")
+	aware := false
+	for _, pc := range pushes {
+		scrubbedGuard := false
+		for _, cd := range core.DominatingConds(pc.Block()) {
+			if call, ok := core.CondIsCall(cd, storagePkg+".Store.KnowsBundle"); ok && !cd.True {
+				if core.DependsOn(core.Arg(call, 0), func(v ssa.Value) bool {
+					c, ok := v.(*ssa.Call)
+					return ok && core.NameIs(core.CalleeName(c), bp7+".BundleID.Scrub")
+				}) {
+					scrubbedGuard = true
+				}
+			}
+		}
+		if !scrubbedGuard {
+			aware = true
+		}
+	}
+	r.Count("Store.Push calls in BundleDescriptor.Sync", len(pushes))
+	r.Min("Store.Push calls in BundleDescriptor.Sync", 1)
+	r.Check(aware, "fragment-identity/"+fname(sync)+"/push-per-fragment", "a received fragment reaches Store.Push also when another fragment of its bundle is already stored: the decision 'known, nothing to store' is not made on the scrubbed bundle ID alone", p.Pos(sync.Pos()), "", "every Store.Push in Sync is guarded by !KnowsBundle(Id.Scrub()): the second fragment of a bundle arriving at a node that still holds the first is never stored nor forwarded (Core.receive also takes it for a duplicate because NewBundleDescriptor loads the first fragment's constraints)")
+}
+
+// checkSequenceStateRestored — necessary for distinct IDs across restarts for
+// bundles without a clock: the sequence counters live in IdKeeper.data, which
+// NewIdKeeper creates empty. SendBundle skips numbers still waiting in the
+// store, but once the earlier bundle has left the store the counter starts at
+// 0 again and a new clock-less bundle leaves under an ID already used in the
+// network. Some writer of IdKeeper.data other than update() must be reachable
+// from NewCore and depend on persisted state.
+func checkSequenceStateRestored(p *core.Program, r *core.Report) {
+	newCore := p.Func(routingPkg, "", "NewCore")
+	upd := p.Func(routingPkg, "IdKeeper", "update")
+	reach := p.Reachable([]*ssa.Function{newCore}, core.IsRepo)
+	restored := false
+	n := 0
+	for _, fn := range p.RepoFuncs() {
+		core.EachInstr(fn, func(in ssa.Instruction) {
+			mu, ok := in.(*ssa.MapUpdate)
+			if !ok || !pathEndsWith(mu.Map, "data") {
+				return
+			}
+			if u, isLd := mu.Map.(*ssa.UnOp); !isLd || !core.IsField(u.X, routingPkg, "IdKeeper", "data") {
+				return
+			}
+			n++
+			if fn != upd && reach[topFunc(fn)] {
+				restored = true
+			}
+		})
+	}
+	r.Count("writers of IdKeeper.data", n)
+	r.Min("writers of IdKeeper.data", 2)
+	r.Check(restored, "sequence-state/"+fname(newCore)+"/restored-from-store", "the sequence counters (at least the one of the zero creation time) are restored when the Core starts: IdKeeper.data has a writer reachable from NewCore besides update()", p.Pos(newCore.Pos()), "", "IdKeeper.data is written only by IdKeeper.update and starts empty in every run: after a restart a clock-less node numbers its bundles from 0 again; once the earlier bundle with that ID has left the store nothing prevents the reuse, peers that saw the earlier one drop the new bundle as a duplicate")
 }
 
 // checkConstraintsPersisted — (6): the retention constraints of a descriptor
